@@ -367,6 +367,17 @@ def run_case(case, tier):
                     m = M.data
                 except Exception as e:
                     V.append({"mech": "change_after_conversion_failed", "detail": f"{cls.__name__}: {type(e).__name__}: {str(e)[:200]}"})
+                if len(raw):
+                    # a message put together by hand around a fresh header (num_data_bytes still 0): its copy is a copy all the same
+                    try:
+                        M0 = Message(H(), cls.from_buffer_copy(raw))
+                        MC0 = Message.copy(M0)
+                        flip(MC0.data)
+                        bump("copies_checked")
+                        if bytes(M0.data) != raw or MC0.data is M0.data:
+                            V.append({"mech": "copy_shares_storage", "detail": f"Message.copy of {cls.__name__} under a header that was never filled in: mutating the copy changed the original"})
+                    except Exception as e:
+                        V.append({"mech": "message_copy_raises", "detail": f"Message.copy({cls.__name__}) under a fresh header: {type(e).__name__}: {str(e)[:160]}"})
                 bump("copies_checked")
                 try:
                     MC = Message.copy(M)
